@@ -90,6 +90,12 @@ func (j *jsonBuilder) mergeEntities(left *astjson.Value, rightResult resultData)
 		arr = left.Get(entityPath)
 	}
 
+	// _entities has one item per representation: representations of a type that
+	// no call looks up stay null, also at the end of the list.
+	if n := rightResult.entityCount; n > len(arr.GetArray()) {
+		arr.SetArrayItem(j.jsonArena, n-1, astjson.NullValue)
+	}
+
 	// Place right's entities at their global positions in the merged array.
 	for index, rr := range rightEntities {
 		arr.SetArrayItem(j.jsonArena, rightResult.entityIndexMap[index], rr)
